@@ -140,6 +140,10 @@ def layer_D_leaves():
             ("bin", "-", ("sum", ("row", M22, 0, 0, 1, None)), ("bin", "*", ("c", 3), ("sum", ("row", M22, 0, 1, 2, None)))),
             ("bin", "+", ("norm", s3, 2), ("bin", "*", ("c", 2), ("norm", s4, 2))),
             ("bin", "*", ("sum", ("vpow", s3, 2)), ("sum", ("vpow", s4, 3)))]
+    # a plain vector on one side, an expression vector that MIXES slots of the same vector on the other
+    out += [("mm", v, ("mv", Q3N, v)), ("dot", ("mv", Q3N, v), v), ("mm", ("mv", Q3N, v), v),
+            ("dot", ("vbin", "-", ("slice", u, 0, 3, None), ("slice", u, 1, 4, None)), ("slice", u, 0, 3, None)),
+            ("dot", ("slice", u, 1, 4, None), ("vbin", "*", ("slice", u, 0, 3, None), ("slice", u, 2, 5, None)))]
     # constant data in other NumPy dtypes / Python ints
     out += [("mm", ("arr", (2, -1, 3), "int"), v), ("mm", v, ("arr", (1, 0, 1), "bool")), ("LC", ("arr", (2, 3, 4), "uint8"), vp1),
             ("dot", v, ("lst", (1, -2, 3))), ("mm", ("arr", (0.5, -1.5, 2.0), "float32"), v),
